@@ -4,9 +4,9 @@ package driver
 
 import (
 	"bufio"
-	"math/rand"
 	"encoding/json"
 	"fmt"
+	"math/rand"
 	"os"
 	"os/exec"
 	"path/filepath"
@@ -30,6 +30,7 @@ type HarnessCfg struct {
 	MapOrder   []string
 	PoolReuse  bool
 	PoolLIFO   bool
+	Race       bool // native replay binary is built with -race
 	NoReplay   bool
 	ReplayRuns int
 	Tiers      string // "", "quick", "thorough": restrict harness to a tier
@@ -71,6 +72,8 @@ func parseHarnessCfgs(src string, tier string, into map[string]*HarnessCfg) {
 				}
 			case "noreplay":
 				c.NoReplay = true
+			case "race":
+				c.Race = true
 			case "replayruns":
 				c.ReplayRuns = n
 			case "tier":
@@ -376,6 +379,7 @@ type scenario struct {
 	Inputs  map[string]any `json:"inputs"`
 	Runs    int            `json:"runs"`
 	Expect  map[string]any `json:"expect"`
+	Race    bool           `json:"-"`
 }
 
 type replayer struct {
@@ -461,19 +465,28 @@ func newReplayer(opts Options, filter func(string) bool) *replayer {
 	return r
 }
 
-func (r *replayer) binary(pat string) (string, error) {
-	if b, ok := r.bin[pat]; ok {
+func (r *replayer) binary(pat string, race bool) (string, error) {
+	key := pat
+	if race {
+		key += "#race"
+	}
+	if b, ok := r.bin[key]; ok {
 		return b, nil
 	}
-	out := filepath.Join(r.dir, "replay_"+strings.NewReplacer("/", "_", ".", "_").Replace(pat)+".test")
-	cmd := exec.Command("go", "test", "-c", "-vet=off", "-overlay", r.overlay, "-o", out, pat)
+	out := filepath.Join(r.dir, "replay_"+strings.NewReplacer("/", "_", ".", "_", "#", "_").Replace(key)+".test")
+	args := []string{"test", "-c", "-vet=off", "-overlay", r.overlay, "-o", out}
+	if race {
+		args = append(args, "-race")
+	}
+	args = append(args, pat)
+	cmd := exec.Command("go", args...)
 	cmd.Dir = r.opts.Repo
 	cmd.Env = append(os.Environ(), "GOFLAGS=-mod=mod", "GOPROXY=off", "GOTOOLCHAIN=auto")
 	b, err := cmd.CombinedOutput()
 	if err != nil {
 		return "", fmt.Errorf("replay build failed: %v: %s", err, tail(string(b), 1500))
 	}
-	r.bin[pat] = out
+	r.bin[key] = out
 	return out, nil
 }
 
@@ -493,7 +506,7 @@ func (r *replayer) run(sc scenario, pkgDir string) (map[string]any, error) {
 	if !ok {
 		return nil, fmt.Errorf("no package for harness %s", sc.Harness)
 	}
-	bin, err := r.binary(pat)
+	bin, err := r.binary(pat, sc.Race)
 	if err != nil {
 		return nil, err
 	}
@@ -502,10 +515,13 @@ func (r *replayer) run(sc scenario, pkgDir string) (map[string]any, error) {
 	f.Write(b)
 	f.Close()
 	wd := filepath.Join(r.opts.Repo, strings.TrimPrefix(pat, "./"))
-	cmd := exec.Command("sh", "-c", "ulimit -v 4000000; exec timeout 60 "+bin+" -test.run '^TestZZReplay$' -test.count=1 -test.timeout=55s")
+	cmd := exec.Command("sh", "-c", "ulimit -v 4000000; exec timeout 120 "+bin+" -test.run '^TestZZReplay$' -test.count=1 -test.timeout=55s")
 	cmd.Dir = wd
 	cmd.Env = append(os.Environ(), "ZZ_SCENARIO="+f.Name())
 	out, runErr := cmd.CombinedOutput()
+	if strings.Contains(string(out), "WARNING: DATA RACE") {
+		return map[string]any{"kind": "violation", "id": "C09.race", "msg": tail(firstRace(string(out)), 900)}, nil
+	}
 	for _, line := range strings.Split(string(out), "\n") {
 		if strings.HasPrefix(line, "ZZREPLAY ") {
 			var res map[string]any
@@ -556,4 +572,16 @@ func assertGroup(id string) string {
 		return id[:i]
 	}
 	return id
+}
+
+func firstRace(out string) string {
+	i := strings.Index(out, "WARNING: DATA RACE")
+	if i < 0 {
+		return ""
+	}
+	rest := out[i:]
+	if j := strings.Index(rest, "=================="); j > 0 {
+		rest = rest[:j]
+	}
+	return rest
 }
